@@ -12,7 +12,7 @@ use uom::si::length::meter;
 pub fn def() -> PropDef {
     PropDef {
         id: "C12",
-        rule: "events drawn from the forward model's stated distribution (vertex |x|,|y| <= 1 cm, |z| <= 0.8 m; 2-4 tracks, uniform azimuth, curvature radius 0.3-3.3 m, both charges, dz/ds in [-0.8,0.8]; amplitude factor 0.5-2, pad charge width 3-6 mm) by proptest strategies seeded from (VERIF_SEED, batch, index); each is rendered, digitised, packed into ADC/PWB/TRG banks and reconstructed with MainEvent::vertex(); oracle per batch (quick: 1 x 400 events; thorough: 10 x 1000): efficiency >= 95 %, median |dz| <= 1.5 cm, P90 |dz| <= 5 cm, median transverse error <= 4 cm, |median dz| <= 3 mm; non-trivial = events in which >= 2 model tracks deposit >= 13 avalanches each and the library finds >= 26 avalanches; distinct by truth hash",
+        rule: "events drawn from the forward model's stated distribution (vertex |x|,|y| <= 1 cm, |z| <= 0.8 m; 2-4 tracks, uniform azimuth, curvature radius 0.3-3.3 m, both charges, dz/ds in [-0.8,0.8]; amplitude factor 0.5-2, pad charge width 3-6 mm) by proptest strategies seeded from (VERIF_SEED, batch, index); each is rendered, digitised, packed into ADC/PWB/TRG banks and reconstructed with MainEvent::vertex(); oracle per batch (quick: 1 x 700 + 1 x 200 events; thorough: 10 x 1000 + 60 x 200) and per sub-batch of >= 200 events of one kind within a batch (2-, 3-, 4-track events; vertex z below -0.3 m, within +-0.3 m, above 0.3 m; the first half): efficiency >= 95 %, median |dz| <= 1.5 cm, P90 |dz| <= 5 cm, median transverse error <= 4 cm, |median dz| <= 3 mm; non-trivial = events in which >= 2 model tracks deposit >= 13 avalanches each and the library finds >= 26 avalanches; distinct by truth hash",
         assumptions: &[
             "the forward model (vcheck/src/fwd.rs) is mine: it decides that the chain is wired correctly within the stated tolerances, not detector-level resolution",
             "observed on the unchanged tree: efficiency ~0.99, median |dz| ~3 mm, P90 ~11 mm, median transverse ~19 mm, |median dz| < 0.4 mm - the limits are 4+ standard errors away for 400 events",
@@ -35,6 +35,8 @@ pub fn truth_at(seed: u64, batch: u64, index: u64) -> Truth {
 struct EventResult {
     dz: Option<f64>,
     transverse: f64,
+    tracks: usize,
+    z: f64,
 }
 
 fn quantile(v: &mut [f64], q: f64) -> f64 {
@@ -63,10 +65,12 @@ fn batch(r: &Run, k: u64, n: u64) {
         ev.label(if vx.is_some() { "vertex:Some" } else { "vertex:None" });
         ev.label(&format!("tracks:{}", t.tracks.len()));
         let res = match vx {
-            None => EventResult { dz: None, transverse: f64::NAN },
+            None => EventResult { dz: None, transverse: f64::NAN, tracks: t.tracks.len(), z: t.vertex.2 },
             Some(v) => EventResult {
                 dz: Some(v.z.get::<meter>() - t.vertex.2),
                 transverse: (v.x.get::<meter>() - t.vertex.0).hypot(v.y.get::<meter>() - t.vertex.1),
+                tracks: t.tracks.len(),
+                z: t.vertex.2,
             },
         };
         if i < 3 {
@@ -79,49 +83,76 @@ fn batch(r: &Run, k: u64, n: u64) {
     if res.len() as u64 != n {
         return; // a per-event violation was already reported
     }
-    let found: Vec<&EventResult> = res.iter().filter(|e| e.dz.is_some()).collect();
-    let eff = found.len() as f64 / n as f64;
-    let mut abs_dz: Vec<f64> = found.iter().map(|e| e.dz.unwrap().abs()).collect();
-    let mut dz: Vec<f64> = found.iter().map(|e| e.dz.unwrap()).collect();
-    let mut tr: Vec<f64> = found.iter().map(|e| e.transverse).collect();
-    let med_abs = quantile(&mut abs_dz, 0.5);
-    let p90 = quantile(&mut abs_dz, 0.9);
-    let med_tr = quantile(&mut tr, 0.5);
-    let med_dz = quantile(&mut dz, 0.5);
-    let stats = json!({"batch": k, "events": n, "efficiency": eff, "median_abs_dz_m": med_abs, "p90_abs_dz_m": p90, "median_transverse_m": med_tr, "median_dz_m": med_dz});
-    eprintln!("C12 batch {k}: {stats}");
-    r.with_ev(|ev| {
-        if ev.samples.len() < 8 {
-            ev.samples.push(stats.clone());
+    // the whole batch, and every sub-batch of >= 200 events of one kind ("any batch of at least 200 such events")
+    let strata: Vec<(&str, Box<dyn Fn(&EventResult) -> bool>)> = vec![
+        ("all", Box::new(|_| true)),
+        ("2-tracks", Box::new(|e| e.tracks == 2)),
+        ("3-tracks", Box::new(|e| e.tracks == 3)),
+        ("4-tracks", Box::new(|e| e.tracks == 4)),
+        ("z<-0.3m", Box::new(|e| e.z < -0.3)),
+        ("|z|<=0.3m", Box::new(|e| e.z.abs() <= 0.3)),
+        ("z>0.3m", Box::new(|e| e.z > 0.3)),
+        ("first-half", Box::new(|_| true)),
+    ];
+    for (name, keep) in &strata {
+        let sub: Vec<&EventResult> = if *name == "first-half" { res.iter().take(res.len() / 2).collect() } else { res.iter().filter(|e| keep(e)).collect() };
+        if sub.len() < 200 {
+            continue;
         }
-    });
-    let mut broken = Vec::new();
-    if eff < 0.95 {
-        broken.push(format!("efficiency {eff:.3} < 0.95"));
-    }
-    if !(med_abs <= 0.015) {
-        broken.push(format!("median |dz| {:.2} mm > 15 mm", med_abs * 1e3));
-    }
-    if !(p90 <= 0.05) {
-        broken.push(format!("P90 |dz| {:.2} mm > 50 mm", p90 * 1e3));
-    }
-    if !(med_tr <= 0.04) {
-        broken.push(format!("median transverse error {:.2} mm > 40 mm", med_tr * 1e3));
-    }
-    if !(med_dz.abs() <= 0.003) {
-        broken.push(format!("median signed dz {:.3} mm outside +-3 mm", med_dz * 1e3));
-    }
-    if !broken.is_empty() {
-        r.report(&format!("batch_{k}_statistics"), json!({"batch": k, "n": n, "stats": stats}), Fail::new("vertex-statistics", broken.join("; ")));
+        let m = sub.len();
+        let found: Vec<&&EventResult> = sub.iter().filter(|e| e.dz.is_some()).collect();
+        let eff = found.len() as f64 / m as f64;
+        let mut abs_dz: Vec<f64> = found.iter().map(|e| e.dz.unwrap().abs()).collect();
+        let mut dz: Vec<f64> = found.iter().map(|e| e.dz.unwrap()).collect();
+        let mut tr: Vec<f64> = found.iter().map(|e| e.transverse).collect();
+        let med_abs = quantile(&mut abs_dz, 0.5);
+        let p90 = quantile(&mut abs_dz, 0.9);
+        let med_tr = quantile(&mut tr, 0.5);
+        let med_dz = quantile(&mut dz, 0.5);
+        let stats = json!({"batch": k, "sub_batch": name, "events": m, "efficiency": eff, "median_abs_dz_m": med_abs, "p90_abs_dz_m": p90, "median_transverse_m": med_tr, "median_dz_m": med_dz});
+        eprintln!("C12 batch {k} [{name}]: {stats}");
+        r.with_ev(|ev| {
+            if ev.samples.len() < 12 {
+                ev.samples.push(stats.clone());
+            }
+            ev.label(&format!("sub-batch-judged:{name}"));
+        });
+        let mut broken = Vec::new();
+        if eff < 0.95 {
+            broken.push(format!("efficiency {eff:.3} < 0.95"));
+        }
+        if !(med_abs <= 0.015) {
+            broken.push(format!("median |dz| {:.2} mm > 15 mm", med_abs * 1e3));
+        }
+        if !(p90 <= 0.05) {
+            broken.push(format!("P90 |dz| {:.2} mm > 50 mm", p90 * 1e3));
+        }
+        if !(med_tr <= 0.04) {
+            broken.push(format!("median transverse error {:.2} mm > 40 mm", med_tr * 1e3));
+        }
+        if !(med_dz.abs() <= 0.003) {
+            broken.push(format!("median signed dz {:.3} mm outside +-3 mm", med_dz * 1e3));
+        }
+        if !broken.is_empty() {
+            r.report(&format!("batch_{k}_statistics"), json!({"batch": k, "n": n, "sub_batch": name, "stats": stats}), Fail::new("vertex-statistics", format!("sub-batch `{name}` of {m} events: {}", broken.join("; "))));
+            break;
+        }
     }
 }
 
 fn run(r: &Run) {
     match r.tier {
-        Tier::Quick => batch(r, 0, 400),
+        Tier::Quick => {
+            batch(r, 0, 700);
+            batch(r, 100, 200);
+        }
         Tier::Thorough => {
             for k in 0..10 {
                 batch(r, k, 1000);
+            }
+            // the smallest batches the statement allows
+            for k in 100..160 {
+                batch(r, k, 200);
             }
         }
     }
